@@ -64,6 +64,10 @@ def toy_target(tseed):
         {"id": "c.view", "type": "ViewParameter", "parameter": "c", "indices": "1:3"},
         {"id": "c.rev", "type": "ViewParameter", "parameter": "c", "indices": "3:1:-1"},
         TP("t", "torch.distributions.ExpTransform", P("z", [r(-0.5, 0.5) for _ in range(2)])),
+        # a simplex held as a slice of a longer vector (kappa and frequencies in one parameter)
+        P("kp", [1.7] + _simplex(rng, 3)),
+        {"id": "kp.freqs", "type": "ViewParameter", "parameter": "kp", "indices": "1:"},
+        {"id": "kp.kappa", "type": "ViewParameter", "parameter": "kp", "indices": ":1"},
         # transformed parameters over LISTS of parameters (an anonymous concatenation sits in between)
         TP("t2", "torch.distributions.ExpTransform", [P("z1", [r(-0.5, 0.5), r(-0.5, 0.5)]), P("z2", [r(-0.5, 0.5)])]),
         TP("t3", "torch.distributions.ExpTransform", [P("z3", [r(-0.5, 0.5)]), P("z4", [r(-0.5, 0.5), r(-0.5, 0.5)])]),
@@ -74,12 +78,14 @@ def toy_target(tseed):
             dist("prior.c", "LogNormal", "c", loc=0.25, scale=0.75),
             dist("prior.t", "Gamma", "t", concentration=3.0, rate=2.0),
             "t",
+            dist("prior.kpf", "Dirichlet", "kp.freqs", concentration=[2.0, 1.5, 3.0]),
+            dist("prior.kpk", "LogNormal", "kp.kappa", loc=0.5, scale=0.8),
             dist("prior.t2", "Gamma", "t2", concentration=2.5, rate=2.0), "t2",
             dist("prior.t3", "Gamma", "t3", concentration=2.0, rate=1.5), "t3",
         ]},
     ]
-    return dict(name="toy", objs=objs, joint="joint", leaves=["a", "b", "p", "c", "z", "z1", "z2", "z3", "z4"],
-                watch=["c.view", "c.rev", "t", "t2", "t3"])
+    return dict(name="toy", objs=objs, joint="joint", leaves=["a", "b", "p", "c", "z", "z1", "z2", "z3", "z4", "kp"],
+                watch=["c.view", "c.rev", "t", "t2", "t3", "kp.freqs", "kp.kappa"])
 
 
 def toy_operators(rng, mix, adapt):
@@ -101,6 +107,10 @@ def toy_operators(rng, mix, adapt):
                         "target_acceptance_probability": 0.24, "disable_adaptation": da})
         elif k == "dirichlet":
             ops.append({"id": "op.dirichlet", "type": "DirichletOperator", "parameters": "p",
+                        "weight": w(), "scaler": round(rng.uniform(20.0, 200.0), 1),
+                        "target_acceptance_probability": 0.24, "disable_adaptation": da})
+        elif k == "dirichlet_view":
+            ops.append({"id": "op.dirichlet_view", "type": "DirichletOperator", "parameters": "kp.freqs",
                         "weight": w(), "scaler": round(rng.uniform(20.0, 200.0), 1),
                         "target_acceptance_probability": 0.24, "disable_adaptation": da})
         elif k in ("hmc", "hmc_adaptive", "hmc_dual", "hmc_mass", "hmc_mass_dense"):
@@ -289,6 +299,7 @@ def plan(tier, seed):
     add("toy", ["scaler_transformed", "sliding"], True, n(100, 400), 1)
     add("toy", ["scaler_cat", "sliding"], True, n(100, 400), 1)
     add("toy", ["hmc_mass", "scaler"], True, n(80, 400), 1)
+    add("toy", ["dirichlet_view", "sliding"], True, n(100, 400), 1)
     add("toy", ["hmc_mass_dense"], True, n(60, 300), 1)
     add("toy", ["scaler_cat", "scaler"], False, n(100, 400), 1)
     for k, ad in (("scaler", True), ("sliding", False), ("dirichlet", True), ("hmc", True),
@@ -611,7 +622,8 @@ def layout(target, init_state):
 
 
 TOY_VIEWS = {"c.view": ("c", [1, 2]), "c.rev": ("c", [3, 2]), "t": ("z", [0, 1]),
-             "t2": [("z1", [0, 1]), ("z2", [0])], "t3": [("z3", [0]), ("z4", [0, 1])]}
+             "t2": [("z1", [0, 1]), ("z2", [0])], "t3": [("z3", [0]), ("z4", [0, 1])],
+             "kp.freqs": ("kp", [1, 2, 3]), "kp.kappa": ("kp", [0])}
 
 
 def view_parts(views, pid):
@@ -1016,13 +1028,17 @@ def _check_proposal(add, run, info, c, k, d, lay):
                 "hastings", k)
     elif kind == "DirichletOperator":
         pid = info["params"][0]
-        b, f = dirichlet_terms(c["before"][pid], c["proposed"][pid], field)
+        if pid in c["before"]:
+            xb, xp = c["before"][pid], c["proposed"][pid]
+        else:       # the operator's parameter is a view: read its entries from the watched values / slots
+            xb, xp = [fb[i] for i in slots[0]], [fp[i] for i in slots[0]]
+        b, f = dirichlet_terms(xb, xp, field)
         d.update(h1=b, h2=f)
         if math.isfinite(b) and math.isfinite(f):
             if not close(h, b - f, 1e-9, 1e-9):
                 add(f"C15:hastings:{kind}", f"iteration {k + 1} ({c['op_id']}): Hastings term {h!r} but "
                     f"ln Dir(x | c x') - ln Dir(x' | c x) = {b - f!r}", "hastings", k)
-            if abs(sum(c["proposed"][pid]) - 1.0) > 1e-9 or min(c["proposed"][pid]) < 0:
+            if abs(sum(xp) - 1.0) > 1e-9 or min(xp) < 0:
                 add(f"C15:proposal:{kind}", f"iteration {k + 1}: Dirichlet proposal not on the simplex", "proposal", k)
         else:
             d["skip"] = True
